@@ -20,6 +20,7 @@ type serveInfo struct {
 	TCP      string            `json:"tcp"`
 	Services []serveService    `json:"services"`
 	Actions  map[string]uint32 `json:"actions"`
+	Desk     uint32            `json:"desk"`
 }
 
 type serveService struct {
@@ -49,6 +50,18 @@ func serveMain(args []string) {
 			ss.Objects = append(ss.Objects, o.id)
 		}
 		info.Services = append(info.Services, ss)
+	}
+	// a service whose methods take and hand out object references (objects hosted by clients)
+	if ds, err := srv.NewService("Desk", probe.DeskObject(&svc.DeskImpl{})); err == nil {
+		info.Desk = ds.ServiceID()
+		if p, err := srv.Session().Proxy("Desk", 1); err == nil {
+			for id, mm := range p.MetaObject().Methods {
+				info.Actions["desk:"+mm.Name] = id
+			}
+		}
+	} else {
+		fmt.Println("ERROR", err)
+		os.Exit(1)
 	}
 	// action ids from the generated meta object
 	{
